@@ -268,6 +268,49 @@ func cmdCheck(args []string) int {
 			inconclusive = append(inconclusive, r.Name+": no path explored")
 		}
 	}
+	// ---- native validation of sample paths (one per reach marker, up to 2 per harness): the solver's model of a
+	// feasible path is run against the natively compiled code, which must reach the same marker without any
+	// assertion failing.  This validates the encoding on every run; it decides nothing.
+	sampleOK, sampleTried := 0, 0
+	var sampleNotes []string
+	if nviol == 0 && os.Getenv("GOSYM_NO_SAMPLE_REPLAY") == "" {
+		sdir := filepath.Join(work, "samples")
+		os.MkdirAll(sdir, 0o755)
+		for _, hr := range results {
+			var labels []string
+			for l, s := range hr.R.Reach {
+				if s.Choices != nil || len(s.Model) > 0 {
+					labels = append(labels, l)
+				}
+			}
+			sort.Strings(labels)
+			if len(labels) > 2 {
+				labels = labels[:2]
+			}
+			for i, l := range labels {
+				smp := hr.R.Reach[l]
+				v := sym.Violation{Harness: hr.R.Name, Kind: "sample", Label: l, Model: smp.Model, Choices: smp.Choices}
+				out, _, err := rp.replay(hr.Rel, v, filepath.Join(sdir, fmt.Sprintf("%s-%d.json", hr.R.Name, i)))
+				if err != nil {
+					sampleNotes = append(sampleNotes, fmt.Sprintf("%s/%s: native build failed: %v", hr.R.Name, l, err))
+					break
+				}
+				sampleTried++
+				switch {
+				case strings.Contains(out, "VH-ASSERT-FAILED") || strings.Contains(out, "VH-PANIC"):
+					sampleNotes = append(sampleNotes, fmt.Sprintf("%s/%s: native run of a PASSING symbolic path fails an assertion: %s", hr.R.Name, l, tail(out, 300)))
+					inconclusive = append(inconclusive, fmt.Sprintf("%s: sample path for reach marker %q passes symbolically but fails natively (encoding or model error)", hr.R.Name, l))
+				case strings.Contains(out, "VH-REACHED "+l+"\n") && strings.Contains(out, "VH-DONE"):
+					sampleOK++
+				default:
+					sampleNotes = append(sampleNotes, fmt.Sprintf("%s/%s: native run took another path (idealised primitive or nondeterministic choice differs natively)", hr.R.Name, l))
+				}
+			}
+		}
+		replays += sampleOK
+	}
+	_ = sampleTried
+
 	// known findings that reproduced
 	var knownLines []string
 	for _, hr := range results {
@@ -285,6 +328,9 @@ func cmdCheck(args []string) int {
 
 	// ---- evidence ----
 	ev := buildEvidence(id, *tierS, seed, results2(results), docs, nviol, replays, inconclusive, time.Since(t0), loadT)
+	ev["coverage"].(map[string]interface{})["sample_paths_replayed_natively"] = sampleTried
+	ev["coverage"].(map[string]interface{})["sample_paths_confirmed_natively"] = sampleOK
+	ev["coverage"].(map[string]interface{})["sample_replay_notes"] = sampleNotes
 	os.MkdirAll("/verif/evidence", 0o755)
 	eb, _ := json.MarshalIndent(ev, "", " ")
 	if err := os.WriteFile(filepath.Join("/verif/evidence", id+".json"), eb, 0o644); err != nil {
